@@ -357,6 +357,8 @@ void RouterSession::checkNudging(const char *when) {
         if (common) continue;
         // with nudgeSharedPathsWithCommonEndPoint off, a shared path that terminates at an end point of one of the two
         // connectors (the end point lies on the other's route) is left overlapping by design
+        // (measured: judging such pairs instead gives 5.7 % violating scenes on the unchanged tree -- the library treats an end point lying
+        //  on the other connector's route like a common end point, in an order-dependent way; left unjudged as an ambiguity of the option)
         bool commonEndOpt = options.count(O_nudgeCommonEnd) ? options[O_nudgeCommonEnd] : true;
         if (!commonEndOpt) {
             bool endOnOther = false;
@@ -553,8 +555,18 @@ static void genPins(SceneGen &sg, int id, Json &o, bool allowZeroInside) {
         if (r.chance(0.4) && s.box.w < s.box.h - 5 && std::fabs(s.box.w - s.box.h / 2) > 1) yoff = s.box.w;
         add(3, -1, yoff, false, inside, r.chance(0.5) ? 8 : 15, r.chance(0.7));
     }
-    o.set("pins", pins);
     s.pinsIds = {1, 1, 1, 1, 2, 3};
+    {
+        // side stream: a second pin of class 3 with the SAME offsets and directions as the first, only deeper inside the shape (two
+        // ports stacked behind each other) -- the class then has room for two connectors when it is exclusive
+        Rng r2(Rng::mix(r.s, "stacked-pin"));
+        const Json &last = pins.a.back();
+        if (r2.chance(0.3) && last.boolean("prop", true) && last.num("inside", 0) > 0) {
+            Json p = last; p.set("inside", last.num("inside", 0) + (double)r2.range(2, 4));
+            pins.push(p); s.pins.push_back(p); s.pinsIds.push_back(3);
+        }
+    }
+    o.set("pins", pins);
 }
 
 void addJunctionOps(RouterGenCfg &g, double pEnd);
@@ -584,7 +596,7 @@ static Json genC11(const std::string &prop, uint64_t seed, const std::string &ti
         std::vector<int> ids; for (auto &kv : sg.shapes) if (kv.second.alive && !kv.second.pins.empty() && kv.first != c.shapeEnd[0]) ids.push_back(kv.first);
         if (ids.empty()) return false;
         int sid = rr.pick(ids); int cls = rr.range(1, 3);
-        int cap = cls == 1 ? 4 : cls == 2 ? 100 : 1;
+        int cap = cls == 1 ? 4 : cls == 2 ? 100 : 0; if (cls == 3) for (auto &pj : sg.shapes[sid].pins) if (pj.i("cls", 1) == 3) cap++;      // class 3: one pin, or two stacked ones
         if ((*capacity)[{sid, cls}] >= cap) return false;
         (*capacity)[{sid, cls}]++;
         e = Json::obj(); e.set("shape", sid); e.set("cls", cls);
@@ -896,7 +908,7 @@ static void extendForMix(Rng &r, RouterGenCfg &g, bool forC20) {
             std::vector<int> ids; for (auto &kv : sg.shapes) if (kv.second.alive && !kv.second.pins.empty() && kv.first != c.shapeEnd[0]) ids.push_back(kv.first);
             if (ids.empty()) return false;
             int sid = rr.pick(ids); int cls = rr.range(1, 3);
-            int cap = cls == 1 ? 4 : cls == 2 ? 100 : 1;
+            int cap = cls == 1 ? 4 : cls == 2 ? 100 : 0; if (cls == 3) for (auto &pj : sg.shapes[sid].pins) if (pj.i("cls", 1) == 3) cap++;      // class 3: one pin, or two stacked ones
             if ((*capacity)[{sid, cls}] >= cap) return false;
             (*capacity)[{sid, cls}]++;
             e = Json::obj(); e.set("shape", sid); e.set("cls", cls);
@@ -919,7 +931,7 @@ void addPinOps(RouterGenCfg &g, bool zeroInside) {
         std::vector<int> ids; for (auto &kv : sg.shapes) if (kv.second.alive && !kv.second.pins.empty() && kv.first != c.shapeEnd[0]) ids.push_back(kv.first);
         if (ids.empty()) return false;
         int sid = rr.pick(ids); int cls = rr.range(1, 3);
-        int cap = cls == 1 ? 4 : cls == 2 ? 100 : 1;
+        int cap = cls == 1 ? 4 : cls == 2 ? 100 : 0; if (cls == 3) for (auto &pj : sg.shapes[sid].pins) if (pj.i("cls", 1) == 3) cap++;      // class 3: one pin, or two stacked ones
         if ((*capacity)[{sid, cls}] >= cap) return false;
         (*capacity)[{sid, cls}]++;
         e = Json::obj(); e.set("shape", sid); e.set("cls", cls);
